@@ -243,6 +243,8 @@ TypedCellColours(o) ==
                                             acc, run.cells),
                                  [y \in 0..w-1 |-> [x \in 0..w-1 |-> <<0,0,0,0>>]], Iota(Len(strokes)))
          IN painted
+\* SVG prints the opacity of a stroke with two decimals (see ShowsTol)
+TypedShows(o, got, want) == IF o.kind = "svg" THEN ShowsTol(got, want, 2) ELSE Shows(got, want)
 TypedFails(o) ==
   LET M == o.matrix n == Len(M) b == o.border w == n + 2*b s == o.scale g == Geo(VersionOfSize(n)) d == o.doc
       container == CASE o.kind = "png" -> PngContainerOK(d) /\ PngShapeOK(d, w * s)
@@ -253,10 +255,10 @@ TypedFails(o) ==
       cc == IF container THEN TypedCellColours(o) ELSE <<>>
   IN {c \in {"container", "module_colours"} :
         CASE c = "container" -> ~container
-          [] c = "module_colours" -> container /\ \E y \in 0..w-1 : \E x \in 0..w-1 : ~Shows(cc[y][x], WantColour(o, g, y, x))}
+          [] c = "module_colours" -> container /\ \E y \in 0..w-1 : \E x \in 0..w-1 : ~TypedShows(o, cc[y][x], WantColour(o, g, y, x))}
 TypedBadCells(o) ==
   LET M == o.matrix n == Len(M) b == o.border w == n + 2*b g == Geo(VersionOfSize(n)) cc == TypedCellColours(o)
-  IN {<<y, x>> \in (0..w-1) \X (0..w-1) : ~Shows(cc[y][x], WantColour(o, g, y, x))}
+  IN {<<y, x>> \in (0..w-1) \X (0..w-1) : ~TypedShows(o, cc[y][x], WantColour(o, g, y, x))}
 
 \* named deviations (known findings)
 \* Dev_BlackWhiteIntAlpha1Opaque (KF-C10-1): writers._color_is_black / _color_is_white compare with (0, 0, 0, 1.0) / (255, 255, 255, 1.0);
